@@ -10,6 +10,10 @@ pub struct Var {
     pub ty: Ty,
     /// a `&mut` reference to one of several places of a local, selected by a match (`let r = match side { A => &mut s.x, B => &mut s.y }`)
     pub alias: Option<Alias>,
+    /// may be assigned: `let mut`, `mut` parameter, `&mut` parameter, `self` of a `&mut self` / `mut self` method.  Rust demands
+    /// `mut` for every by-value local that is written, so a write to a variable that is not `mutable` goes through a
+    /// reference binding (`let S { a, b } = self`, default binding modes) - which this translator does not model: fail closed
+    pub mutable: bool,
 }
 
 #[derive(Clone, Debug)]
@@ -17,12 +21,19 @@ pub struct Alias {
     /// the Coq scrutinee and the Coq patterns of the selecting match (a single arm with pattern `_` for a plain `&mut place`)
     pub scrut: String,
     pub arms: Vec<(String, Vec<Member>)>,
-    /// the local variable all places are rooted in
+    /// the local variable all places are rooted in: its Rust name (for messages), its Coq name and type (the alias keeps
+    /// pointing at THIS variable even if the Rust name is shadowed later)
     pub root: String,
+    pub root_coq: String,
+    pub root_ty: Ty,
 }
 
 pub fn var(coq: String, ty: Ty) -> Var {
-    Var { coq, ty, alias: None }
+    Var { coq, ty, alias: None, mutable: false }
+}
+
+pub fn var_mut(coq: String, ty: Ty, mutable: bool) -> Var {
+    Var { coq, ty, alias: None, mutable }
 }
 
 #[derive(Clone, Default, Debug)]
@@ -87,6 +98,9 @@ pub struct Tr<'a> {
     pub aux_defs: Vec<String>,
     /// type arguments of the turbofish of the call being translated (for callees with `assoc_params`)
     pub turbofish_types: Option<Vec<String>>,
+    /// Coq names of `self` and of the `&mut` parameters (what the function returns as their final values)
+    pub self_coq: String,
+    pub mut_param_coq: Vec<String>,
 }
 
 pub fn lit(n: i128) -> String {
@@ -432,8 +446,15 @@ impl<'a> Tr<'a> {
                 if n == "None" {
                     return Ok("None".into());
                 }
+                if i.by_ref.is_some() {
+                    return Err(unsupported(p, "`ref` / `ref mut` binding (reference bindings are not modelled)"));
+                }
+                // an identifier pattern that names a const / unit struct / glob-imported variant is NOT a binder in Rust
+                if n.chars().next().map(|c| c.is_uppercase()).unwrap_or(false) || self.t.consts.iter().any(|c| c.key == n || c.key.ends_with(&format!("::{}", n))) {
+                    return Err(unsupported(p, &format!("identifier pattern `{}` that may name a constant or an enum variant (write the path, e.g. `Enum::{}`)", n, n)));
+                }
                 let c = self.fresh(&n);
-                env.push(&n, var(c.clone(), ty.clone()));
+                env.push(&n, var_mut(c.clone(), ty.clone(), i.mutability.is_some()));
                 Ok(c)
             }
             Pat::Tuple(t) => {
